@@ -12,8 +12,9 @@ META = {
     'explanation': 'Fail-stop, sequential part. Sinks (CollectVecSink, Collect, CollectCountSink) are driven over every '
                    'symbolic script with an upstream that may panic at any position: the shared output slot stays empty '
                    'until Terminate has been consumed, holds exactly the collected elements afterwards, and stays empty '
-                   'on every path on which the upstream panicked. SimpleStartReceiver::recv on a disconnected channel '
-                   'panics instead of fabricating a Terminate. Propagation of the panic across threads '
+                   'on every path on which the upstream panicked. Start over N upstream replicas one of which dies at any point '
+                   '(no Terminate, channel disconnected once the survivors are done) fails instead of reporting the end '
+                   'of the stream or of the iteration. Propagation of the panic across threads '
                    '(JoinHandle::join) is outside the technique.',
     'assumptions': ['std::sync::Mutex::lock succeeds when not poisoned'],
     'trusted': ['mirsym MIR executor and its std model table', 'z3 / cvc5'],
@@ -195,6 +196,119 @@ def dead_channel_harness(w, adaptive):
     return h
 
 
+class CrashRx(PyObj):
+    """NetworkReceiver of a block whose upstream replica `dead` died after `alive_batches` of its batches: the other
+    replicas deliver everything (any interleaving); when nothing is left the channel is disconnected"""
+    name = 'NetworkReceiver'
+
+    def __init__(self, w, coords, batches):
+        self.w, self.coords, self.batches = w, coords, [list(b) for b in batches]
+        self.log = []
+
+    def _next(self, ex):
+        avail = [i for i, b in enumerate(self.batches) if b]
+        if not avail:
+            return None
+        i = avail[ex.choose(len(avail), 'arrival') if len(avail) > 1 else 0]
+        batch = self.batches[i].pop(0)
+        self.log.append((i, batch))
+        new_batch = self.w.impls[(None, 'NetworkMessage')]['new_batch'][0]
+        return ex.call_function(new_batch, [VecModel([deep_copy(e) for e in batch]), deep_copy(self.coords[i])])
+
+    def trait_call(self, ex, trait, method, args):
+        from mirsym.models import err, ok
+        if method == 'recv':
+            m = self._next(ex)
+            return err(Enum('channel::RecvError', 'Disconnected', 0, [])) if m is None else ok(m)
+        if method == 'recv_timeout':
+            m = self._next(ex)
+            return err(Enum('channel::RecvTimeoutError', 'Disconnected', 1, [])) if m is None else ok(m)
+        raise Unsupported('CrashRx ' + method)
+
+
+def crash_harness(w, nsenders, adaptive, max_len):
+    """Start over N upstream replicas one of which dies (its worker unwinds: no further batch, no Terminate, its
+    sending end is dropped) at any point of its script while the others finish cleanly: Start must fail, it must never
+    report the end of the stream or of an iteration the dead replica had not ended"""
+    from props.start import cut_batches
+    snew = w.impls[(None, 'Start')]['new'][0]
+    setup = w.impls[('Operator', 'Start')]['setup'][0]
+    nxt = w.impls[('Operator', 'Start')]['next'][0]
+    hlib.check_se_table(w)
+
+    def h(ex):
+        coords = [hlib.coord(w, 0, 0, i) for i in range(nsenders)]
+        scripts = [hlib.gen_script(ex, 1, max_len, 'I', name='s%d' % s, payload=lambda ex, k, s=s: Int('u64', 100 * (s + 1) + k))
+                   for s in range(nsenders)]
+        batches = [cut_batches(ex, sc, 'each') for sc in scripts]
+        dead = ex.choose(nsenders, 'dead replica') if nsenders > 1 else 0
+        alive = ex.choose(len(batches[dead]), 'batches sent before dying')     # < len: its Terminate never leaves
+        batches[dead] = batches[dead][:alive]
+        dead_ended = any(e.variant == 'FlushAndRestart' for b in batches[dead] for e in b)
+        rxn = CrashRx(w, coords, batches)
+        if ex.env.get('native'):
+            # model run first (fixes the arrival order), then the real Start on the same batches
+            pass
+        from props.binary import Topology
+        from props.start import exec_metadata
+        rx = hlib.mk_struct(w, 'SimpleStartReceiver', receiver=none(), previous_replicas=VecModel([]),
+                            previous_block_id=Int('u64', 0))
+        st = ex.call_function(snew, [rx, none()])
+        md = exec_metadata(w, hlib.coord(w, 1, 0, 0), adaptive)
+        md.set('network', Ref([Topology({0: rxn})], 0))
+        md.set('prev', VecModel([Agg('tuple', None, [deep_copy(c), Opaque('TypeId')]) for c in coords]))
+        holder = [st]
+        ex.call_function(setup, [Ref(holder, 0), Ref([md], 0)])
+        outs = []
+        sx = lambda: {'senders': [[repr(e) for e in s] for s in scripts], 'dead': dead, 'batches_before_dying': alive,
+                      'arrival': [(i, [repr(e) for e in b]) for i, b in rxn.log], 'outputs': outs}
+        total = sum(len(b) for bs in batches for b in bs)
+
+        def judge(kinds, panicked):
+            if 'Terminate' in kinds:
+                raise Violation('Start reports the end of the stream although upstream replica %d died without sending '
+                                'Terminate: the failure is masked and the sinks downstream publish a partial result' % dead,
+                                hlib._wit(ex), sx())
+            if 'FlushAndRestart' in kinds and not dead_ended:
+                raise Violation('Start reports the end of the iteration although upstream replica %d died before ending '
+                                'it' % dead, hlib._wit(ex), sx())
+            if not panicked:
+                raise Violation('Start keeps running on a channel whose producers are gone', hlib._wit(ex), sx())
+        panicked = False
+        try:
+            for _ in range(2 * total + 8):
+                r = ex.call_function(nxt, [Ref(holder, 0)])
+                outs.append(r.variant)
+                if r.variant == 'Terminate':
+                    break
+        except RustPanic:
+            panicked = True
+        if ex.env.get('native'):
+            runner, prof = ex.env['native']
+            ex.env['native_used'] = True
+            args = [nsenders, int(bool(adaptive)), len(rxn.log)]
+            for i, b in rxn.log:
+                args += [i, 0, len(b)] + hlib.encode_script(ex, b, False)
+            txt = runner('start_crash', args)[prof]
+            ex.env['native_out'] = txt
+            if txt.startswith(('BADARGS', 'UNKNOWN', 'NORESULT')):
+                raise Unsupported('native driver: ' + txt)
+            toks = txt.split()
+            kinds = [{'E': 'Terminate', 'F': 'FlushAndRestart', 'B': 'FlushBatch'}.get(t, 'Item') for t in toks
+                     if t not in ('PANIC', 'TIMEOUT', 'OVERRUN')]
+            outs[:] = toks
+            judge(kinds, txt == 'PANIC')
+            return sx()
+        judge(outs, panicked)
+        hlib.cover(ex, 'panicked')
+        if any(b for i, b in enumerate(rxn.batches) if i != dead):
+            raise Violation('Start failed before consuming what the surviving replicas sent', hlib._wit(ex), sx())
+        if any(e.variant == 'Terminate' for i, b in rxn.log for e in b):
+            hlib.cover(ex, 'sibling_terminated')
+        return sx()
+    return h
+
+
 _sink_tasks = TASKS
 
 
@@ -203,4 +317,12 @@ def TASKS(tier):     # noqa: F811
         Task('dead_channel_%s' % ('adaptive' if a else 'fixed'), 'dead_channel_harness', {'adaptive': a},
              bounds='Start<SimpleStartReceiver>::next on a disconnected channel, batch mode %s' %
                     ('adaptive' if a else 'fixed'), role='dead_channel',
-             opts={'covers': ['panicked'], 'panic_is_violation': True}) for a in (False, True)]
+             opts={'covers': ['panicked'], 'panic_is_violation': True}) for a in (False, True)] + [
+        Task('crash_%d_%s' % (n, 'adaptive' if a else 'fixed'), 'crash_harness',
+             {'nsenders': n, 'adaptive': a, 'max_len': 1 if tier == 'quick' else 2},
+             bounds='Start<SimpleStartReceiver>::next over %d upstream replicas (1 iteration x <=%d items each, one element '
+                    'per batch, every arrival interleaving), one replica dies after any number of its batches (its '
+                    'Terminate is never sent), then the channel is disconnected; batch mode %s' %
+                    (n, 1 if tier == 'quick' else 2, 'adaptive' if a else 'fixed'), role='dead_channel',
+             opts={'covers': ['panicked', 'sibling_terminated'] if n > 1 else ['panicked']})
+        for n in (1, 2) for a in (False, True)]
